@@ -261,19 +261,29 @@ func (w *World) Members(name string) []string {
 // evalMembers evaluates all members of an object; the first error wins (which
 // member is met first is not pinned down, so callers only use the class).
 func (ev *Evaluator) evalMembers(members []string, st []string) Res {
-	var firstErr *Res
+	var errs []Res
 	for _, m := range members {
 		ev.T.Enter[m]++
 		r := ev.EvalSetting(m, st, true)
-		if r.IsErr && firstErr == nil {
-			rr := r
-			firstErr = &rr
+		if r.IsErr {
+			errs = append(errs, r)
 		}
 	}
-	if firstErr != nil {
-		return *firstErr
+	if len(errs) == 0 {
+		return Res{Container: true}
 	}
-	return Res{Container: true}
+	// which failing member is met first depends on enumeration order: the
+	// object fails, and it fails as a cycle only if every failing member does
+	out := Res{IsErr: true, Cyclic: true, Msg: "member"}
+	for _, e := range errs {
+		if !e.Cyclic {
+			out.Cyclic = false
+		}
+	}
+	if len(errs) == 1 {
+		out.Msg = errs[0].Msg
+	}
+	return out
 }
 
 // exists: ${x:+a} only asks whether x is set.
@@ -398,7 +408,55 @@ func (g ExGen) name(r *rand.Rand, depth int) *Ex {
 	return Lit(g.Names[r.Intn(len(g.Names))])
 }
 
-func (g ExGen) Gen(r *rand.Rand, depth int) *Ex {
+// Normalize merges adjacent literals, drops empty ones inside concatenations
+// and collapses one-element concatenations, so that the tree is exactly what
+// its rendered text means (a concatenation of ${x} and "" IS the single
+// reference ${x}).
+func (e *Ex) Normalize() *Ex {
+	if e == nil {
+		return nil
+	}
+	e.Name = e.Name.Normalize()
+	e.Rhs = e.Rhs.Normalize()
+	if e.Kind != XCat {
+		return e
+	}
+	var kids []*Ex
+	for _, k := range e.Kids {
+		k = k.Normalize()
+		if k.Kind == XCat {
+			kids = append(kids, k.Kids...)
+		} else {
+			kids = append(kids, k)
+		}
+	}
+	var out []*Ex
+	for _, k := range kids {
+		if k.Kind == XLit {
+			if k.Text == "" {
+				continue
+			}
+			if len(out) > 0 && out[len(out)-1].Kind == XLit {
+				out[len(out)-1] = Lit(out[len(out)-1].Text + k.Text)
+				continue
+			}
+		}
+		out = append(out, k)
+	}
+	switch len(out) {
+	case 0:
+		return Lit("")
+	case 1:
+		return out[0]
+	}
+	e.Kids = out
+	return e
+}
+
+// Gen generates a normalized expression.
+func (g ExGen) Gen(r *rand.Rand, depth int) *Ex { return g.gen(r, depth).Normalize() }
+
+func (g ExGen) gen(r *rand.Rand, depth int) *Ex {
 	k := r.Intn(10)
 	if depth <= 0 {
 		k = r.Intn(4)
@@ -409,16 +467,16 @@ func (g ExGen) Gen(r *rand.Rand, depth int) *Ex {
 	case k < 5:
 		return &Ex{Kind: XRef, Name: g.name(r, depth)}
 	case k < 6:
-		return &Ex{Kind: XDef, Name: g.name(r, depth), Rhs: g.Gen(r, depth-1)}
+		return &Ex{Kind: XDef, Name: g.name(r, depth), Rhs: g.gen(r, depth-1)}
 	case k < 7:
-		return &Ex{Kind: XAlt, Name: g.name(r, depth), Rhs: g.Gen(r, depth-1)}
+		return &Ex{Kind: XAlt, Name: g.name(r, depth), Rhs: g.gen(r, depth-1)}
 	case k < 8:
 		return &Ex{Kind: XErr, Name: g.name(r, depth), Rhs: Lit("boom")}
 	default:
 		n := 2 + r.Intn(2)
 		c := &Ex{Kind: XCat}
 		for i := 0; i < n; i++ {
-			kid := g.Gen(r, depth-1)
+			kid := g.gen(r, depth-1)
 			if kid.Kind == XCat {
 				c.Kids = append(c.Kids, kid.Kids...)
 			} else {
